@@ -178,6 +178,8 @@ class _MpsMpoParent:
         phi = self.shallow_copy()
         for n in phi.sweep(to='last'):
             phi.A[n] = phi.A[n].transpose(axes=(0, 3, 2, 1)).conj()
+        if phi.pC is not None:
+            phi.A[phi.pC] = phi.A[phi.pC].conj()
         return phi
 
     @property
